@@ -462,7 +462,13 @@ impl DeconstructedPat {
                 fields = match data {
                     None => vec![],
                     Some(PatVariantData::Positional(pat)) => {
-                        vec![DeconstructedPat::from_ast_pat(statics, pat)]
+                        let sub = DeconstructedPat::from_ast_pat(statics, pat);
+                        // a single void field is no column (the variant's arity is 0)
+                        if matches!(sub.ty, Type::Void) {
+                            vec![]
+                        } else {
+                            vec![sub]
+                        }
                     }
                     Some(PatVariantData::Named(named)) => {
                         let variant_def = &enum_def.variants[*variant];
